@@ -53,7 +53,7 @@ CLAUSE = {"pre_call": 1, "post_call": 2, "call": 3, "declare": 4, "arg_c_call": 
 VARS = {
     "f_var": 0, "c_var": 1, "c_var_len": 2, "c_var_trim": 3, "c_var_size": 4, "c_var_context": 5, "cxx_var": 6,
     "F_pointer": 7, "F_result": 8, "ELEMLEN": 9, "CFI": 10, "shadow_var": 11, "F_result_ptr": 12,
-    "c_var_capsule": 13, "nullptr": 98, "-1": 99, "0": 97,
+    "c_var_capsule": 13, "SHAPE": 14, "nullptr": 98, "-1": 99, "0": 97,
 }
 
 V = r"\{(\w+)\}"
@@ -109,11 +109,40 @@ PATTERNS = [
     (r"type\(C_PTR\) :: " + V, 47, [1]),
     (V + r" = \{F_C_call\}\(\{F_arg_c_call\}\)", 48, [1]),
     (r"\{cxx_type\} \* " + V + r" = new \{cxx_type\};", 49, [1]),
+    (r"\{c_const\}\{cxx_type\} \*" + V + r";", 66, [1]),
+    # std::vector through the context struct and ShroudCopyArray
+    (r"\{c_const\}std::vector<\{cxx_T\}> " + V + r"\(" + V + r", " + V + r" \+ " + V + r"\);", 50, [1, 2, 3, 4]),
+    (r"\{c_const\}std::vector<\{cxx_T\}> \*" + V + r" = new std::vector<\{cxx_T\}>;", 51, [1]),
+    (r"std::vector<\{cxx_T\}> \*" + V + r" = new std::vector<\{cxx_T\}>\(" + V + r", " + V + r" \+ " + V + r"\);", 52, [1, 2, 3, 4]),
+    (V + r"->cxx\.addr = \{cxx_nonconst_ptr\};", 61, [1]),
+    (V + r"->cxx\.addr = " + V + r";", 53, [1, 2]),
+    (V + r"->cxx\.idtor = \{idtor\};", 54, [1]),
+    (V + r"->addr\.base = " + V + r"->empty\(\) \? \{nullptr\} : &" + V + r"->front\(\);", 55, [1, 2, 3]),
+    (V + r"->type = \{sh_type\};", 56, [1]),
+    (V + r"->elem_len = sizeof\(\{cxx_T\}\);", 57, [1]),
+    (V + r"->size = " + V + r"->size\(\);", 58, [1, 2]),
+    (V + r"->rank = 1;", 59, [1]),
+    (V + r"->shape\[0\] = " + V + r"->size;", 60, [1, 2]),
+    # native pointer results through the context struct
+    (V + r"->addr\.base = " + V + r";", 62, [1, 2]),
+    (V + r"->elem_len = sizeof\(\{cxx_type\}\);", 63, [1]),
+    (V + r"->rank = \{rank\};\{c_array_shape\}", 64, [1]),
+    (V + r"->size = \{c_array_size\};", 65, [1]),
+    (r"call \{hnamefunc0\}\(" + V + r", " + V + r", size\(" + V + r", ?kind=C_SIZE_T\)\)", 70, [1, 2, 3]),
+    (r"allocate\(" + V + r"\(" + V + r"%size\)\)", 71, [1, 2]),
+    (r"if \(allocated\(" + V + r"\)\) deallocate\(" + V + r"\)", 72, [1, 2]),
+    (r"allocate\(" + V + r"\{f_array_allocate\}\)", 73, [1]),
+    (r"allocate\(" + V + r"\(\{c_var_dimension\}\)\)", 74, [1]),
+    (r"call c_f_pointer\(" + V + r"%base_addr, " + V + r"\{f_array_shape\}\)", 75, [1, 2]),
+    (r"call c_f_pointer\(" + V + r", " + V + r"\{f_array_shape\}\)", 76, [1, 2]),
+    # char ** input
+    (r"char \*\*" + V + r" = ShroudStrArrayAlloc\(" + V + r", " + V + r", " + V + r"\);", 80, [1, 2, 3, 4]),
+    (r"ShroudStrArrayFree\(" + V + r", " + V + r"\);", 81, [1, 2]),
 ]
 
 # ---- unmodelled lines: explicit, one op code each (>= 100); entries using them are `_partial` ----
 OPAQUE = [
-    "allocate({f_var}{f_array_allocate})",
+    "<modelled> allocate({f_var}{f_array_allocate})",
     "{c_var_context}%base_addr = C_LOC({f_var})",
     "{c_var_context}%type = {sh_type}",
     "! {c_var_context}%elem_len = C_SIZEOF()",
@@ -121,27 +150,27 @@ OPAQUE = [
     "{c_var_context}%rank = {rank}",
     "{c_var_context}%shape(1:{rank}) = shape({f_var})",
     "call c_f_pointer({F_pointer}, {f_var})",
-    "call c_f_pointer({c_var_context}%base_addr, {f_var}{f_array_shape})",
+    "<modelled> call c_f_pointer({c_var_context}%base_addr, {f_var}{f_array_shape})",
     "{f_var} = {c_var_context}%base_addr",
-    "allocate({f_var}({c_var_dimension}))",
-    "call {hnamefunc0}({c_var_context}, {f_var}, size({f_var}, kind=C_SIZE_T))",
-    "call c_f_pointer({F_pointer}, {F_result}{f_array_shape})",
+    "<modelled> allocate({f_var}({c_var_dimension}))",
+    "<modelled> call {hnamefunc0}({c_var_context}, {f_var}, size({f_var}, kind=C_SIZE_T))",
+    "<modelled> call c_f_pointer({F_pointer}, {F_result}{f_array_shape})",
     "{c_var_capsule}%mem = {c_var_context}%cxx",
     "allocate(character(len={c_var_context}%elem_len):: {f_var})",
     "call {hnamefunc0}({c_var_context}, {f_var}, {c_var_context}%elem_len)",
-    "call {hnamefunc0}({c_var_context}, {f_var}, size({f_var},kind=C_SIZE_T))",
-    "allocate({f_var}({c_var_context}%size))",
-    "if (allocated({f_var})) deallocate({f_var})",
+    "<modelled> call {hnamefunc0}({c_var_context}, {f_var}, size({f_var},kind=C_SIZE_T))",
+    "<modelled> allocate({f_var}({c_var_context}%size))",
+    "<modelled> if (allocated({f_var})) deallocate({f_var})",
     "type({F_array_type}) {c_var_context}",
-    "{c_const}{cxx_type} *{cxx_var};",
+    "<modelled> {c_const}{cxx_type} *{cxx_var};",
     "{cxx_type} * {c_var} = {c_var_context}->addr.base;",
     "{cxx_type} * {c_var} = static_cast<{cxx_type} *>(const_cast<void *>({c_var_context}->addr.base));",
-    "char **{cxx_var} = ShroudStrArrayAlloc({c_var}, {c_var_size}, {c_var_len});",
-    "ShroudStrArrayFree({cxx_var}, {c_var_size});",
+    "<modelled> char **{cxx_var} = ShroudStrArrayAlloc({c_var}, {c_var_size}, {c_var_len});",
+    "<modelled> ShroudStrArrayFree({cxx_var}, {c_var_size});",
     "std::string * {cxx_var} = new std::string;",
-    "{c_const}std::vector<{cxx_T}> {cxx_var}({c_var}, {c_var} + {c_var_size});",
-    "{c_const}std::vector<{cxx_T}> *{cxx_var} = new std::vector<{cxx_T}>;",
-    "std::vector<{cxx_T}> *{cxx_var} = new std::vector<{cxx_T}>({c_var}, {c_var} + {c_var_size});",
+    "<modelled> {c_const}std::vector<{cxx_T}> {cxx_var}({c_var}, {c_var} + {c_var_size});",
+    "<modelled> {c_const}std::vector<{cxx_T}> *{cxx_var} = new std::vector<{cxx_T}>;",
+    "<modelled> std::vector<{cxx_T}> *{cxx_var} = new std::vector<{cxx_T}>({c_var}, {c_var} + {c_var_size});",
     "std::vector<{cxx_T}> {cxx_var};",
     "{c_const}std::vector<{cxx_T}> {cxx_var};",
     "{{+",
@@ -160,25 +189,25 @@ OPAQUE = [
     "{c_const}{cxx_type} * {cxx_var} = static_cast<{c_const}{cxx_type} *>(static_cast<{c_const}void *>({c_addr}{c_var}));",
     "{c_const}{c_type} * {c_var} = static_cast<{c_const}{c_type} *>(static_cast<{c_const}void *>({cxx_addr}{cxx_var}));",
     "{cxx_type} *{cxx_var} = {cast_static}{cxx_type} *{cast1}{c_var}->base_addr{cast2};",
-    "{c_var_context}->cxx.addr = {cxx_nonconst_ptr};",
-    "{c_var_context}->cxx.idtor = {idtor};",
-    "{c_var_context}->addr.base = {cxx_var};",
-    "{c_var_context}->type = {sh_type};",
-    "{c_var_context}->elem_len = sizeof({cxx_type});",
-    "{c_var_context}->rank = {rank};{c_array_shape}",
-    "{c_var_context}->size = {c_array_size};",
+    "<modelled> {c_var_context}->cxx.addr = {cxx_nonconst_ptr};",
+    "<modelled> {c_var_context}->cxx.idtor = {idtor};",
+    "<modelled> {c_var_context}->addr.base = {cxx_var};",
+    "<modelled> {c_var_context}->type = {sh_type};",
+    "<modelled> {c_var_context}->elem_len = sizeof({cxx_type});",
+    "<modelled> {c_var_context}->rank = {rank};{c_array_shape}",
+    "<modelled> {c_var_context}->size = {c_array_size};",
     "{c_var_context}->addr.ccharp = {cxx_var};",
     "{c_var_context}->elem_len = {cxx_var} == {nullptr} ? 0 : {stdlib}strlen({cxx_var});",
     "{c_var_context}->size = 1;",
     "{c_var_context}->rank = 0;",
     "ShroudStrToArray({c_var_context}, {cxx_addr}{cxx_var}, {idtor});",
     "ShroudStrToArray({c_var_context}, {cxx_var}, {idtor});",
-    "{c_var_context}->cxx.addr = {cxx_var};",
-    "{c_var_context}->addr.base = {cxx_var}->empty() ? {nullptr} : &{cxx_var}->front();",
-    "{c_var_context}->elem_len = sizeof({cxx_T});",
-    "{c_var_context}->size = {cxx_var}->size();",
-    "{c_var_context}->rank = 1;",
-    "{c_var_context}->shape[0] = {c_var_context}->size;",
+    "<modelled> {c_var_context}->cxx.addr = {cxx_var};",
+    "<modelled> {c_var_context}->addr.base = {cxx_var}->empty() ? {nullptr} : &{cxx_var}->front();",
+    "<modelled> {c_var_context}->elem_len = sizeof({cxx_T});",
+    "<modelled> {c_var_context}->size = {cxx_var}->size();",
+    "<modelled> {c_var_context}->rank = 1;",
+    "<modelled> {c_var_context}->shape[0] = {c_var_context}->size;",
     "if ({cxx_var} != {nullptr}) {{+",
     "int SH_ret = CFI_allocate({cfi_prefix}{c_var}, (CFI_index_t *) 0, (CFI_index_t *) 0, strlen({cxx_var}));",
     "if (SH_ret == CFI_SUCCESS) {{+",
